@@ -8,6 +8,7 @@ import (
 	"os"
 	"path/filepath"
 	"sort"
+	"strings"
 
 	"github.com/ulikunitz/xz"
 	"github.com/ulikunitz/xz/lzma"
@@ -374,6 +375,18 @@ func c04Edits() []xzEdit {
 			return true
 		}},
 	)
+	e = append(e, xzEdit{Name: "blocks-exchanged-index-kept", PerBlock: true, Make: func(p *xzPieces, bi int) bool {
+		// two neighbouring blocks of different sizes change places, the index stays: every
+		// block is intact, only the comparison of the records in order can object
+		if bi+1 >= len(p.recs) || p.recs[bi] == p.recs[bi+1] {
+			return false
+		}
+		p.bh[bi], p.bh[bi+1] = p.bh[bi+1], p.bh[bi]
+		p.data[bi], p.data[bi+1] = p.data[bi+1], p.data[bi]
+		p.pad[bi], p.pad[bi+1] = p.pad[bi+1], p.pad[bi]
+		p.chk[bi], p.chk[bi+1] = p.chk[bi+1], p.chk[bi]
+		return true
+	}})
 	e = append(e,
 		idxEdit("index-padding-nonzero", func(p *xzPieces) bool {
 			n := ref.IndexBytes(p.recs, -1, 1)
@@ -477,6 +490,7 @@ func checkC04(c *ev.Ctx) {
 			}
 		}
 	}
+	c04Many(c, edits)
 	c.MinEvals(int64(len(jobs) / 2))
 	par(len(jobs), func(i int) {
 		j := jobs[i]
@@ -569,6 +583,95 @@ func checkC04(c *ev.Ctx) {
 			c.Sample(map[string]any{"seed": s.ID, "modification": name, "arg": j.arg, "read_schedules": len(scheds)})
 		}
 	})
+}
+
+// c04Many applies the per-record edits to streams of more than 65536 tiny blocks, at records
+// before, at and after positions 2^16 and at the very end: whatever a reader keeps per block
+// (a list, a counter, a running sum) is compared with the index record by record for the
+// whole stream, not only for the first so many.
+func c04Many(c *ev.Ctx, edits []xzEdit) {
+	nv := 1
+	if thorough(c) {
+		nv = 3
+	}
+	for v := 0; v < nv; v++ {
+		r := prng.New(c.Seed, 46, uint64(v))
+		ck := []byte{xz.CRC32, 0, xz.CRC64}[v]
+		cfg := xz.WriterConfig{DictCap: 4096, CheckSum: ck}
+		if ck == 0 {
+			cfg = xz.WriterConfig{DictCap: 4096, NoCheckSum: true}
+		}
+		var tp []xzPieces
+		var tc [][]byte
+		for _, content := range []string{"ab", "cdefg"} {
+			b := libWriteXZ(cfg, []byte(content))
+			o, ss, err := ref.DecodeXZ(b, 0)
+			if err != nil || len(ss) != 1 || len(ss[0].Blocks) != 1 || string(o) != content {
+				c.Inconclusive(fmt.Sprintf("many-blocks template is not a one-block stream: %v", err))
+				return
+			}
+			tp = append(tp, splitXZ(xzSeed{B: b, S: ss[0]}))
+			tc = append(tc, []byte(content))
+		}
+		n := 65536 + r.Range(3, 3000)
+		big := xzPieces{hdr: tp[0].hdr, check: ck}
+		var content []byte
+		for k := 0; k < n; k++ {
+			t := r.Intn(2)
+			big.bh, big.data, big.pad, big.chk = append(big.bh, tp[t].bh[0]), append(big.data, tp[t].data[0]), append(big.pad, tp[t].pad[0]), append(big.chk, tp[t].chk[0])
+			big.recs = append(big.recs, tp[t].recs[0])
+			content = append(content, tc[t]...)
+		}
+		big.resealIndexFooter()
+		all := big.assemble()
+		o, ss, err := ref.DecodeXZ(all, 0)
+		if err != nil || len(ss) != 1 || !bytes.Equal(o, content) {
+			c.Inconclusive(fmt.Sprintf("many-blocks seed is not valid for the reference: %v", err))
+			return
+		}
+		seed := &xzSeed{ID: fmt.Sprintf("many%d", v), B: all, Content: content, S: ss[0], Check: ck, Feat: fmt.Sprintf("%d blocks of 2 or 5 bytes, check %d", n, ck)}
+		if lo, lerr := libXZ(all, xz.ReaderConfig{DictCap: 4096}); lerr != nil || !bytes.Equal(lo, content) {
+			c.Inconclusive(fmt.Sprintf("the unmodified stream of %d blocks is not decoded by the library (judged by C03): %v", n, lerr))
+			return
+		}
+		c.Count("many_block_streams", 1)
+		pos := []int{0, 1, 65533, 65534, 65535, 65536, 65537, n - 2, n - 3, r.Intn(n - 1), r.Intn(65000), 65536 + r.Intn(n-65537)}
+		type mj struct{ ei, bi int }
+		var jobs []mj
+		for ei, e := range edits {
+			if !e.PerBlock || !(strings.HasPrefix(e.Name, "index-") || e.Name == "blocks-exchanged-index-kept") {
+				continue
+			}
+			for _, bi := range pos {
+				// the next position at which the two neighbouring records differ
+				for bi+1 < n && big.recs[bi] == big.recs[bi+1] {
+					bi++
+				}
+				if bi+1 < n {
+					jobs = append(jobs, mj{ei, bi})
+				}
+			}
+		}
+		par(len(jobs), func(i int) {
+			j := jobs[i]
+			e := edits[j.ei]
+			id := fmt.Sprintf("%s:edit:%d:%d", seed.ID, j.ei, j.bi)
+			noteCase(id)
+			if !want(c, id) {
+				return
+			}
+			q := big
+			q.recs = append([][2]int64(nil), big.recs...)
+			q.bh, q.data = append([][]byte(nil), big.bh...), append([][]byte(nil), big.data...)
+			q.pad, q.chk = append([][]byte(nil), big.pad...), append([][]byte(nil), big.chk...)
+			if !e.Make(&q, j.bi) {
+				c.Count("edits_not_applicable", 1)
+				return
+			}
+			c.Count("many_block_edits", 1)
+			c04Judge(c, seed, "edit", j.ei, j.bi, id, "edit:"+e.Name, q.assemble(), "readall", nil, true, edits)
+		})
+	}
 }
 
 // sealRegion is a byte range [from,to) of a seed protected by the CRC32 stored at crcAt over
